@@ -125,6 +125,11 @@ def witness_stage(ctx):
     lines, impl, w = F.run_history(WITNESS_F13B)
     FC.oracle(ctx, WITNESS_F13B, w)
     ctx.traces += 1
+    ok, det = F.binding_check()
+    ctx.evaluations += 1
+    if not ok:
+        ctx.violate("C09:binding:wrong-follow-up-schedule", "Program._gen_method does not hand a screening method the "
+                    "schedule of its preferred follow-up method", {"binding": det})
     # the duplicate request of F13 really costs a second survey when the daily capacity is one
     w13 = runs[0][3]
     ctx.extra["F13_witness_surveys_of_site0"] = sum(1 for v in w13.visits if v["site"] == 0 and v["outcome"] == "c")
@@ -201,6 +206,10 @@ def check_trace(cfg, tr):
             by = next((m for m in screening if in_update.get(m)), None)
             if by is not None and sched in fus:
                 stats["flags"] += 1
+                pref = meths[by]["follow_up"].get("preferred_method")
+                if pref in fus and sched != pref:
+                    viol.append(("C09:whole:wrong-follow-up-schedule", "a screening method queued a site on a follow-up "
+                                 "schedule that is not the one of its preferred follow-up method", {"event": ev}))
                 info = {"day": day, "by": by, "rate": rate, "latest": latest, "entry": entry}
                 if latest is not None:
                     if latest + rd[by] > day:
